@@ -270,18 +270,23 @@ func c20Unmodified(e *Env) {
 	rule := "C20.R3"
 	// sendJustAcknowledgeMessage ⇔ reqType == Confirmable ∧ !IsModified
 	if f := e.P.Func("udp/client.sendJustAcknowledgeMessage"); f != nil { // optional: the two tests may be written out in processResponse
-		hasCon, hasMod := false, false
-		core.Instrs(f, func(in ssa.Instruction) {
-			if b, ok := in.(*ssa.BinOp); ok && b.Op.String() == "==" {
-				if k, isC := core.ConstInt(b.Y); isC && k == 0 && core.Unwrap(b.X) == ssa.Value(f.Params[0]) {
-					hasCon = true
+		bf := &core.BoolFn{Fn: f, AtomOf: func(v ssa.Value) (string, bool, bool) {
+			if c, ok := core.AsCmp(v); ok && (c.Op == token.EQL || c.Op == token.NEQ) {
+				for _, xy := range [][2]ssa.Value{{c.X, c.Y}, {c.Y, c.X}} {
+					if k, isC := core.ConstInt(xy[1]); isC && k == 0 && core.Unwrap(xy[0]) == ssa.Value(f.Params[0]) {
+						return "confirmable", c.Op == token.NEQ, true
+					}
 				}
 			}
-			if c, ok := in.(*ssa.Call); ok && core.CalleeName(c) == "message/pool.Message.IsModified" {
-				hasMod = true
+			if c, ok := v.(*ssa.Call); ok && core.CalleeName(c) == "message/pool.Message.IsModified" {
+				return "modified", false, true
 			}
-		})
-		e.R.Check(hasCon && hasMod, rule, "udp/client.sendJustAcknowledgeMessage:predicate", e.fpos(f), "reqType == Confirmable(0) ∧ !IsModified()", "bare-ACK predicate no longer tests Confirmable and IsModified")
+			return "", false, false
+		}}
+		checkTruth(e, rule, "udp/client.sendJustAcknowledgeMessage:predicate", bf,
+			func(r core.BoolRow) bool { return len(r.Rets) == 1 && r.Rets[0] == 1 },
+			func(a map[string]bool) bool { return a["confirmable"] && !a["modified"] },
+			"bare ACK ⇔ reqType == Confirmable(0) ∧ !IsModified()", "the bare-ACK predicate is not `confirmable and response untouched`")
 	}
 	// processResponse: on the bare-ACK arm the code is set to Empty and the type to Acknowledgement
 	if f := e.fn(rule, "udp/client.Conn.processResponse"); f != nil {
